@@ -171,6 +171,30 @@ Section Envelope.
     if verify_id && negb is_config then read_encrypted_full_checked k s i
     else read_encrypted_full k s i.
 
+  (* Loaders (DecryptReadBackend::stream_all -> stream_list -> get_file, consumed with `?`):
+     GlobalIndex::new_from_collector, get_all_snapshots, prune, check, ... read EVERY id of the
+     backend's listing of the type; the first failing read fails the whole load.
+     `complete = false` models a loader that first drops listed files of size 0. *)
+  Fixpoint load_all (read : fid -> res bytes) (ids : list fid) : res (list (fid * bytes)) :=
+    match ids with
+    | [] => Ok []
+    | i :: r =>
+      match read i with
+      | Err e => Err e
+      | Ok x => match load_all read r with
+                | Err e => Err e
+                | Ok xs => Ok ((i, x) :: xs)
+                end
+      end
+    end.
+
+  Definition listing (s : store) : list (fid * N) := map (fun '(i, b) => (i, N.of_nat (length b))) s.
+
+  Definition load_type (complete verify_id : bool) (k : key) (s : store) : res (list (fid * bytes)) :=
+    let ids := if complete then map fst (listing s)
+               else map fst (filter (fun '(_, sz) => negb (sz =? 0)) (listing s)) in
+    load_all (read_repo_file verify_id false k s) ids.
+
   (* hash_write_full: id = hash of the stored (encrypted) bytes *)
   Definition hash_write_full (zstd : option Z) (k : key) (nonce data : bytes) (s : store) : fid * store :=
     let d := encrypt_file zstd k nonce data in (hash d, (hash d, d) :: s).
